@@ -24,9 +24,11 @@ CLAIMS = {
                  'keys',
 }
 GOALS = {'quick': ['two processes invoked at one instant',
-                   'structural and ordinary update in one dictionary'],
+                   'structural and ordinary update in one dictionary',
+                   'process deleted in the batch in which its update is due'],
          'thorough': ['two processes invoked at one instant',
-                      'structural and ordinary update in one dictionary']}
+                      'structural and ordinary update in one dictionary',
+                      'process deleted in the batch in which its update is due']}
 STUBS = ['pure stub processes: accumulate a symbolic delta (indexed by process '
          'name and call index) into a shared z and set own_<name> := z read; '
          'user updater counting applications; recording emitter']
@@ -200,9 +202,111 @@ def body_spawner(ctx, cfg):
     ctx.goal('structural and ordinary update in one dictionary')
 
 
+class Worker(Process):
+    """lives inside a compartment and accumulates into a variable outside it
+    (wired with '..')"""
+
+    def ports_schema(self):
+        return {'out': {'total': {'_default': 0, '_emit': True}},
+                'own': {'x': {'_default': 0}}}
+
+    def calculate_timestep(self, states):
+        return CTX['ts']['worker']
+
+    def next_update(self, timestep, states):
+        CTX['worker_calls'].append(CTX['engine'].global_time)
+        return {'out': {'total': CTX['dw']}}
+
+
+class Reaper(Process):
+    """deletes the worker's compartment with its first or second update"""
+
+    def ports_schema(self):
+        return {'cells': {'*': {'own': {'x': {'_default': 0}}}}}
+
+    def calculate_timestep(self, states):
+        return CTX['ts']['reaper']
+
+    def next_update(self, timestep, states):
+        CTX['reaper_calls'] += 1
+        upd = {}
+        if CTX['reaper_calls'] == CTX['kill_at'] and 'c1' in states['cells']:
+            upd['cells'] = {'_delete': ['c1']}
+            CTX['killed_at'] = CTX['engine'].global_time + timestep
+        return upd
+
+
+def body_reaper(ctx, cfg):
+    """A process is deleted by an update of the same batch in which its own
+    last update (to a variable outside its compartment) is due: that update is
+    part of the state committed at that instant, whatever the listing order."""
+    CTX.clear()
+    CTX['ctx'] = ctx
+    CTX['ts'] = {'worker': ctx.int('ts', 1, 3), 'reaper': ctx.int('ts', 1, 3)}
+    CTX['dw'] = ctx.int('dw', -3, 3)
+    kill_at = 1 + ctx.choice('kill_at', 2)
+    T = ctx.int('T', 2, 5)
+    runs = []
+    for reaper_first in (False, True):
+        CTX['worker_calls'] = []
+        CTX['reaper_calls'] = 0
+        CTX['kill_at'] = kill_at
+        CTX['killed_at'] = None
+        sink = stubs.reset_sink()
+        procs = [('reaper', Reaper({})), ('cells', {'c1': {'worker': Worker({})}})]
+        if not reaper_first:
+            procs.reverse()
+        topo = {'reaper': {'cells': ('cells',)},
+                'cells': {'c1': {'worker': {'out': ('..', '..', 'out'),
+                                            'own': ('own',)}}}}
+        e = Engine(processes=dict(procs), topology=topo,
+                   emitter={'type': 'vsym_rec'}, display_info=False)
+        CTX['engine'] = e
+        e.update(T)
+        runs.append(dict(rows=[dict(r) for r in sink['rows']],
+                         worker_calls=list(CTX['worker_calls']),
+                         killed_at=CTX['killed_at'], rf=reaper_first))
+    tsw, tsr = CTX['ts']['worker'], CTX['ts']['reaper']
+    committed = []
+    for r in runs:
+        k = r['killed_at']
+        for row in r['rows']:
+            t = row['time']
+            exp = 0
+            for g in r['worker_calls']:
+                # an update of the worker is committed when its interval has
+                # ended by t - also when the compartment is deleted at that
+                # very instant - and dropped when it was still in flight at
+                # the deletion
+                end = ite(g + tsw <= T, g + tsw, T)
+                if k is None:
+                    exp = exp + ite(end <= t, CTX['dw'], 0)
+                else:
+                    exp = exp + ite(AND(end <= t, end <= k), CTX['dw'], 0)
+            committed.append(EQ(row['out']['total'], exp))
+        if k is not None:
+            ctx.goal('process deleted in the batch in which its update is due')
+    info = lambda: dict(ts=CTX['ts'], kill_at=kill_at,
+                        runs=[(r['rf'], r['killed_at'], r['worker_calls'],
+                               r['rows']) for r in runs])
+    ctx.claim('C04.committed', AND(committed), sig='committed-deleted-in-batch',
+              info=info)
+    base = runs[0]['rows']
+    eq = [len(runs[1]['rows']) == len(base)]
+    for a, b in zip(base, runs[1]['rows']):
+        la, lb = stubs.leaves(a), stubs.leaves(b)
+        eq.append(set(la) == set(lb))
+        eq += [EQ(la[k], lb[k]) for k in la if k in lb]
+    ctx.claim('C04.order', AND(eq), sig='order-deleted-in-batch', info=info)
+    for row in base:
+        ctx.observe('t', row['time'])
+        ctx.observe('total', row['out']['total'])
+
+
 def jobs(tier):
     q = tier == 'quick'
-    return [
+    return [dict(name='reaper', part='reaper', budget_s=100 if q else 600),
+            
         dict(name='N3-perms', N=3, steps=0, B=3 if q else 4, T=4 if q else 6,
              budget_s=100 if q else 1200,
              crosscheck=0 if q else 20),
@@ -244,6 +348,8 @@ def run_once(ctx, cfg, order, sorder, init_keys, reverse):
 def body(ctx, cfg):
     if cfg.get('part') == 'spawner':
         return body_spawner(ctx, cfg)
+    if cfg.get('part') == 'reaper':
+        return body_reaper(ctx, cfg)
     names = ['p%d' % i for i in range(cfg['N'])]
     snames = ['st%d' % i for i in range(cfg['steps'])] + (
         ['dep'] if cfg['steps'] else [])
